@@ -191,6 +191,22 @@ func (m *Hosts) Frame(kind string, src MAC, ip netip.Addr, dhcp bool) []Group {
 	return m.notify(h, flag)
 }
 
+// FrameNamed models a frame that a naming handler (mDNS, NBNS, ...) looks at between Parse and Notify: the host the frame
+// belongs to gets a name update before the notification pass.
+func (m *Hosts) FrameNamed(kind string, src MAC, ip netip.Addr, source, name string) []Group {
+	if !m.Creates(kind, src, ip) {
+		return nil
+	}
+	h := m.findOrCreate(src, ip)
+	flag := false
+	if !h.Online {
+		m.onlineTransition(h)
+		flag = true
+	}
+	m.UpdateName(ip, source, name)
+	return m.notify(h, flag)
+}
+
 func (m *Hosts) notify(h *Host, flag bool) []Group {
 	if !h.Pending {
 		return nil
